@@ -1,6 +1,7 @@
 package logqlengine
 
 import (
+	"encoding/binary"
 	"maps"
 	"regexp"
 	"slices"
@@ -76,9 +77,17 @@ func (a *aggregatedLabels) Without(labels ...logql.Label) logqlmetric.Aggregated
 // Key computes grouping key from set of labels.
 func (a *aggregatedLabels) Key() logqlmetric.GroupingKey {
 	h := xxhash.New()
+	// Prefix every string with its length, so the hashed stream is
+	// unambiguous: {a="bc"} and {ab="c"} must not share a key.
+	var size [8]byte
+	writeString := func(s string) {
+		binary.LittleEndian.PutUint64(size[:], uint64(len(s)))
+		_, _ = h.Write(size[:])
+		_, _ = h.WriteString(s)
+	}
 	a.forEach(func(k, v string) {
-		_, _ = h.WriteString(k)
-		_, _ = h.WriteString(v)
+		writeString(k)
+		writeString(v)
 	})
 	return h.Sum64()
 }
